@@ -15,7 +15,7 @@ import AmVerif.Model.Spec
     non-counter is recorded as a plain successor), adjust the index columns (`Top` state machine →
     `OpSet::conflict / expose`, `OpSet::add_succ`, `Columns::splice`).
 
-  Everything read from the store (`rowVisible`, `storeMapRegister`, …, `storeShowDoc`) uses the rows
+  Everything read from the store (`Row.isVisible`, `storeMapRegister`, …, `storeShowDoc`) uses the rows
   only; `Proofs/Store*.lean` prove these reads equal to the `Spec` reading of the op set.
 -/
 namespace AmVerif.Crdt
@@ -64,7 +64,7 @@ def incFor (o target : Op) : Option Int :=
 
 /-- `Op::visible()` of a stored op: not an increment; a counter is visible while all its successors
     are increments; anything else while it has no successor -/
-def rowVisible (r : Row) : Bool :=
+def Row.isVisible (r : Row) : Bool :=
   if r.op.isInc then false
   else if r.op.isCounterVal then r.succ.all (fun p => p.2.isSome)
   else r.succ.isEmpty
@@ -168,12 +168,12 @@ structure TopAcc where
     `x` is a row of the register BEFORE the successor update -/
 def topStep (o : Op) (acc : TopAcc) (x : Row) : TopAcc :=
   if x.op.id == o.id then
-    if rowVisible x then
+    if Row.isVisible x then
       match acc.st with
       | .doc i => { acc with st := .change, conflicts := i :: acc.conflicts }
       | _ => { acc with st := .change }
     else acc
-  else if rowVisible x then
+  else if Row.isVisible x then
     if deletes o x then
       match acc.st with
       | .doc i => { acc with st := .expose i }
@@ -194,7 +194,7 @@ def TopAcc.exposed (a : TopAcc) : Option OpId := match a.st with | .expose i => 
     new row the values `Columns::splice` writes.  `w` = `Op::width(SequenceType::Text, encoding)`. -/
 def updateRow (w : Op → Nat) (o : Op) (acc : TopAcc) (x : Row) : Row :=
   if x.op.id == o.id then
-    let v := rowVisible x
+    let v := Row.isVisible x
     let t := v && !acc.conflicted
     { x with vis := v, top := t, width := if t then some (w x.op) else none }
   else
@@ -237,17 +237,17 @@ def buildStore (w : Op → Nat) (ops : List Op) : Store := ops.foldl (insertRemo
 
 /-! ### the index columns from scratch (`IndexBuilder`) -/
 
-def visibleCol (s : Store) : List Bool := s.map rowVisible
+def visibleCol (s : Store) : List Bool := s.map Row.isVisible
 
 /-- is there a visible row in the leading run of rows of register `(obj, k)` -/
 def laterVisible (obj : ObjId) (k : Key) : Store → Bool
   | [] => false
-  | x :: xs => if x.op.obj == obj && x.op.regKey == k then rowVisible x || laterVisible obj k xs else false
+  | x :: xs => if x.op.obj == obj && x.op.regKey == k then Row.isVisible x || laterVisible obj k xs else false
 
 /-- `IndexBuilder::flush`: the last visible row of every run of rows of one register -/
 def topCol : Store → List Bool
   | [] => []
-  | x :: xs => (rowVisible x && !laterVisible x.op.obj x.op.regKey xs) :: topCol xs
+  | x :: xs => (Row.isVisible x && !laterVisible x.op.obj x.op.regKey xs) :: topCol xs
 
 def widthCol (w : Op → Nat) (s : Store) : List (Option Nat) :=
   (s.zip (topCol s)).map (fun p => if p.2 then some (w p.1.op) else none)
@@ -268,11 +268,11 @@ def rowEntry (r : Row) : Entry :=
 
 /-- register of a map key: the visible value rows of that key in store order -/
 def storeMapRegister (s : Store) (obj : ObjId) (k : Bytes) : List Entry :=
-  (s.filter (fun r => r.op.obj == obj && r.op.key == .map k && r.op.isValue && rowVisible r)).map rowEntry
+  (s.filter (fun r => r.op.obj == obj && r.op.key == .map k && r.op.isValue && Row.isVisible r)).map rowEntry
 
 /-- register of a sequence element: the visible value rows of that element in store order -/
 def storeElemRegister (s : Store) (obj : ObjId) (e : OpId) : List Entry :=
-  (s.filter (fun r => r.op.obj == obj && r.op.elem == some e && r.op.isValue && rowVisible r)).map rowEntry
+  (s.filter (fun r => r.op.obj == obj && r.op.elem == some e && r.op.isValue && Row.isVisible r)).map rowEntry
 
 /-- the insert ops of a sequence object in store order -/
 def storeSeqOrder (s : Store) (obj : ObjId) : List Op :=
@@ -285,7 +285,7 @@ def dedupAdj : List Bytes → List Bytes
 
 /-- keys of a map object with a visible value, in store order -/
 def storeMapKeys (s : Store) (obj : ObjId) : List Bytes :=
-  dedupAdj ((s.filter (fun r => r.op.obj == obj && r.op.isValue && rowVisible r)).filterMap
+  dedupAdj ((s.filter (fun r => r.op.obj == obj && r.op.isValue && Row.isVisible r)).filterMap
     (fun r => match r.op.key with | .map k => some k | _ => none))
 
 def storeSeqElems (s : Store) (obj : ObjId) : List (OpId × List Entry) :=
